@@ -1145,7 +1145,7 @@ def run(ctx):
                 if o == 'bad-op':
                     ctx.disagree(st_quad, sig, 'n/a', 'bad-op', 'model rejected the term encoding')
                     continue
-                Jm = float(Fraction(o))
+                Jm = common.fracf(o)
                 if abs(Jm - p['J']) > 1e-9 * max(abs(Jm), abs(p['J'])) + 1e-9 * p['bnorm2'] * 16:
                     ctx.disagree(st_quad, sig, p['J'], Jm, 'penalty value of the varied penalty: real build_penalties vs the Lean Penalty/Terms model')
             else:
@@ -1153,7 +1153,7 @@ def run(ctx):
                 if o == 'bad-op':
                     ctx.disagree(st_neq, sig, 'n/a', 'bad-op', 'model could not evaluate the normal equations')
                     continue
-                rssm, qam, resm, rhsm = [float(Fraction(t.strip())) for t in o.split('|')]
+                rssm, qam, resm, rhsm = [common.fracf(t.strip()) for t in o.split('|')]
                 sF = max(abs(rssm), r['ynorm'] ** 2) + 1e-300
                 t = 10 * p['acc']
                 if abs(rssm - p['rss']) > max(1e-9, t) * sF:
